@@ -2590,3 +2590,154 @@ def install2(m):
         if fn is not None:
             return m.run_body(fn, a)
         raise Unsupported('%s on %r' % (c.method, x))
+
+
+# =============================================================================
+# ordered / hashed sets and maps (BTreeSet, BTreeMap, HashSet)
+
+class TreeObj:
+    """BTreeSet / BTreeMap / HashSet: list of (key, Cell(value) | None), kept sorted for the BTree variants."""
+
+    def __init__(self, kind):
+        self.kind = kind              # 'btreeset' | 'btreemap' | 'hashset'
+        self.entries = []
+        self.rust_type = {'btreeset': 'BTreeSet', 'btreemap': 'BTreeMap', 'hashset': 'HashSet'}[kind]
+
+    def clone(self, m):
+        t = TreeObj(self.kind)
+        t.entries = [(clone_val(k), Cell(clone_val(c.v)) if c is not None else None) for k, c in self.entries]
+        return t
+
+
+def tree_insert(m, t, key, value=None):
+    for i, (k, c) in enumerate(t.entries):
+        if m.ctx.branch(m.values_eq(m, k, key)):
+            if t.kind == 'btreemap':
+                old = c.v
+                c.v = value
+                return some(old)
+            return False
+        if t.kind != 'hashset' and m.ctx.branch(m.value_lt(m, key, k)):
+            t.entries.insert(i, (key, Cell(value) if t.kind == 'btreemap' else None))
+            return none() if t.kind == 'btreemap' else True
+    t.entries.append((key, Cell(value) if t.kind == 'btreemap' else None))
+    return none() if t.kind == 'btreemap' else True
+
+
+def tree_order(m, t):
+    n = len(t.entries)
+    if t.kind != 'hashset' or n <= 1:
+        return list(range(n))
+    h = HashMapObj()
+    h.entries = [[k, c] for k, c in t.entries]
+    return hashmap_order(m, h)
+
+
+def install3(m):
+    L = m.lib
+    L['BTreeSet::new'] = lambda m, a, c, rt: TreeObj('btreeset')
+    L['BTreeMap::new'] = lambda m, a, c, rt: TreeObj('btreemap')
+    L['HashSet::new'] = lambda m, a, c, rt: TreeObj('hashset')
+    L['HashSet::with_capacity'] = L['HashSet::new']
+    L['default:BTreeSet'] = lambda m: TreeObj('btreeset')
+    L['default:BTreeMap'] = lambda m: TreeObj('btreemap')
+    L['default:HashSet'] = lambda m: TreeObj('hashset')
+
+    old_insert = L['insert']
+
+    def insert(m, a, c, rt):
+        t = deref(m, a[0])
+        if isinstance(t, TreeObj):
+            return tree_insert(m, t, a[1], a[2] if len(a) > 2 else None)
+        return old_insert(m, a, c, rt)
+    for k in ('insert', 'HashMap::insert', 'BTreeSet::insert', 'BTreeMap::insert', 'HashSet::insert'):
+        L[k] = insert
+
+    def wrap(name, tree_fn):
+        old = L.get(name)
+
+        def h(m, a, c, rt):
+            t = a[0]
+            tt = deref(m, t) if isinstance(t, Ptr) and t.meta is None else t
+            if isinstance(tt, TreeObj):
+                return tree_fn(m, tt, a, c, rt)
+            if old is None:
+                raise Unsupported('no summary for %s' % c.raw)
+            return old(m, a, c, rt)
+        L[name] = h
+
+    def t_iter(m, t, a, c, rt):
+        order = tree_order(m, t)
+        by_value = not isinstance(a[0], Ptr)
+        items = []
+        for i in order:
+            k, cc = t.entries[i]
+            if t.kind == 'btreemap':
+                items.append(Tuple([k, cc.v]) if by_value else Tuple([Ptr(Cell(k), ()), Ptr(cc, ())]))
+            else:
+                items.append(k if by_value else Ptr(Cell(k), ()))
+        return ListIter(items)
+    wrap('iter', t_iter)
+    wrap('into_iter', t_iter)
+
+    def t_len(m, t, a, c, rt):
+        return usize(len(t.entries))
+    wrap('len', t_len)
+    wrap('is_empty', lambda m, t, a, c, rt: len(t.entries) == 0)
+
+    def t_contains(m, t, a, c, rt):
+        for k, cc in t.entries:
+            if m.ctx.branch(m.values_eq(m, k, a[1])):
+                return True
+        return False
+    wrap('contains', t_contains)
+    wrap('contains_key', t_contains)
+
+    def t_get(m, t, a, c, rt):
+        for k, cc in t.entries:
+            if m.ctx.branch(m.values_eq(m, k, a[1])):
+                return some(Ptr(cc, ()) if cc is not None else Ptr(Cell(k), ()))
+        return none()
+    wrap('get', t_get)
+
+    def t_keys(m, t, a, c, rt):
+        return ListIter([Ptr(Cell(t.entries[i][0]), ()) for i in tree_order(m, t)])
+    wrap('keys', t_keys)
+    wrap('values', lambda m, t, a, c, rt: ListIter([Ptr(t.entries[i][1], ()) for i in tree_order(m, t)]))
+
+    def t_remove(m, t, a, c, rt):
+        for i, (k, cc) in enumerate(t.entries):
+            if m.ctx.branch(m.values_eq(m, k, a[1])):
+                del t.entries[i]
+                return some(cc.v) if t.kind == 'btreemap' else True
+        return none() if t.kind == 'btreemap' else False
+    wrap('remove', t_remove)
+
+    old_collect = L['collect']
+
+    def collect(m, a, c, rt):
+        tb = type_base(rt or c.generics or 'Vec')
+        if tb in ('BTreeSet', 'BTreeMap', 'HashSet'):
+            t = TreeObj(tb.lower())
+            for x in drain_iter(m, to_iter(m, a[0])):
+                if tb == 'BTreeMap':
+                    tree_insert(m, t, x.fields[0], x.fields[1])
+                else:
+                    tree_insert(m, t, x)
+            return t
+        return old_collect(m, a, c, rt)
+    L['collect'] = collect
+
+    old_extend = L['extend']
+
+    def extend(m, a, c, rt):
+        t = deref(m, a[0])
+        if isinstance(t, TreeObj):
+            for x in drain_iter(m, to_iter(m, a[1])):
+                if t.kind == 'btreemap':
+                    tree_insert(m, t, x.fields[0], x.fields[1])
+                else:
+                    tree_insert(m, t, x)
+            return unit()
+        return old_extend(m, a, c, rt)
+    L['extend'] = extend
